@@ -421,7 +421,7 @@ ORACLES = {
     "md047": (md047, [{}]),
     "md010": (md010, [{}, {"code_blocks": False}]),
     "md009": (md009, [{}, {"br_spaces": 3}, {"strict": True}, {"br_spaces": 0}]),
-    "md012": (md012, [{}, {"maximum": 2}]),
+    "md012": (md012, [{}, {"maximum": 2}, {"maximum": 0}, {"maximum": 3}]),
     "md013": (md013, [{}, {"line_length": 40}, {"line_length": 20, "heading_line_length": 30, "code_block_line_length": 10}, {"strict": True, "line_length": 40},
                       {"code_blocks": False, "line_length": 30}, {"headings": False, "line_length": 30}, {"stern": True, "line_length": 40},
                       # every ordering of the three limits (each limit in turn the smallest / the largest)
